@@ -43,7 +43,9 @@ PLACEMENTS = [
     ("{}\ny = [2,\n 3]\n", "y = [2,\n 3]\n"),
 ]
 LINES = ["x = 1", "    y", "", "# c", "ls -l | grep $X", "if a:", "        z", "s = '''t", "u'''", "(", ")", "  w  ", "a, b", "\tq", "f = f'''t {a}",
-         "mid {b} x"]
+         "mid {b} x",
+         # a leading '<' / '<<' puts the line two / four columns left of the block's indentation (dedented comments)
+         "<# d", "<<# e"]
 AFTER = ["", "y = 2\n", "if z:\n    pass\n"]
 
 
@@ -236,9 +238,30 @@ def _procfam(raw: str) -> str:
 def _with_src(case: dict) -> tuple[str, str]:
     ind = " " * case["indent"]
     head = ("def f():\n" if case["indent"] else "") + f"{ind}with! ctx as c:\n"
-    block = "".join(ind + "    " + ln + "\n" for ln in case["body"])
+    lines = [_place(ind, ln) for ln in case["body"]]
+    block = "".join(lines)
     after = "".join(ind + ln + "\n" for ln in case["after"].splitlines()) if case["after"] else ""
-    return head + block + after, block
+    # the block's own text: everything up to the next statement, minus the comment lines after its last code line
+    # that are indented less than the block (they belong to no block), and whatever follows those
+    last = max(i for i, ln in enumerate(case["body"]) if _is_code(ln))
+    keep = len(lines)
+    for i in range(last + 1, len(lines)):
+        if lines[i].lstrip().startswith("#") and len(lines[i]) - len(lines[i].lstrip()) < len(ind) + 4:
+            keep = i
+            break
+    return head + block + after, "".join(lines[:keep])
+
+
+def _place(ind: str, ln: str) -> str:
+    if ln.startswith("<<"):
+        return ind + ln[2:] + "\n"
+    if ln.startswith("<"):
+        return ind + "  " + ln[1:] + "\n"
+    return ind + "    " + ln + "\n"
+
+
+def _is_code(ln: str) -> bool:
+    return bool(ln.strip()) and not ln.lstrip("<").strip().startswith("#")
 
 
 def _consistent_indent(body: list[str]) -> bool:
@@ -252,7 +275,7 @@ def _consistent_indent(body: list[str]) -> bool:
             continue
         if ln.count("'''") % 2:
             in_str = True
-        if not ln.strip() or ln.strip().startswith("#"):
+        if not _is_code(ln):
             continue
         col = len(ln) - len(ln.lstrip(" "))
         if col > stack[-1]:
@@ -276,16 +299,13 @@ def _check_with(case: dict, acc: Any) -> None:
         after = case["after"]
     else:
         body = case["body"]
-        if not any(ln.strip() and not ln.strip().startswith("#") for ln in body):
+        if not any(_is_code(ln) for ln in body):
             acc.count("outside:no-code-line")
             return
-        # the first line fixes the block's indentation; deeper / blank lines stay inside, nothing may dedent out
-        first = body[0]
-        if not first.strip() or first.strip().startswith("#") or first[0] in " \t" or any(ln[:1] == "\t" for ln in body):
+        # the first code line fixes the block's indentation; deeper / blank / comment lines stay inside, nothing may dedent out
+        first = next(ln for ln in body if _is_code(ln))
+        if first[0] in " \t" or any(ln[:1] == "\t" for ln in body):
             acc.count("outside:first-line-not-at-block-indent")
-            return
-        if not body[-1].strip() or body[-1].strip().startswith("#"):
-            acc.count("outside:trailing-blank-or-comment")  # whether it belongs to the raw block has no answer in the property
             return
         if not _consistent_indent(body):
             acc.count("outside:inconsistent-dedent")  # the block does not tokenize (IndentationError): outside the domain
